@@ -48,6 +48,8 @@ def count_obligations(r, pid):
         q = _strip_crate(vname)
         if not fn_relevant(r, q, pid):
             continue
+        if q.startswith("kf_"):
+            continue   # known-finding wrappers are reported apart (known_findings_hit), neither required nor counted as discharged
         fb = r.functions.get(vname, {})
         ok = fb.get("success", True) and not any(f.fn == q for f in r.failures)
         total += n
